@@ -16,7 +16,7 @@ from ..flow import Flow, emptiness_test_kind
 from ..alg import Sym, Unsupported, _binop
 
 GEO = "typhon/geographical.py"
-EXPECT = {"C06.pairing": 1, "C06.args": 3, "C06.units": 8, "C06.scale": 4, "C06.deshuffle": 2, "C06.pairs": 4, "C06.empty": 1, "C06.metric": 1 + 2, "C06.complete": 3, "C06.pure": 3, "C06.support": 1, "C06.split": 1, "C06.cartesian": 1, "C06.answer": 1}
+EXPECT = {"C06.pairing": 1, "C06.args": 3, "C06.units": 8, "C06.scale": 4, "C06.deshuffle": 2, "C06.pairs": 4, "C06.empty": 1, "C06.metric": 1 + 2, "C06.complete": 3, "C06.pure": 3, "C06.support": 1, "C06.split": 1, "C06.convert": 1, "C06.cartesian": 1, "C06.answer": 1}
 
 SI_KM = {  # unit -> (kilometres per unit, accepted spellings)
     "cm": (1e-5, {"cm", "centimeter", "centimeters", "centimetre", "centimetres"}),
@@ -807,9 +807,68 @@ def rule_split(ctx):
     ctx.models.append({"rule": "C06.split", "cases": len(SPLIT_TABLE), "domain": "table of radius spellings (numbers with sign, fraction, exponent, blanks; units; no number)", "exhaustive": False})
 
 
+def rule_convert_table(ctx):
+    """to_kilometers evaluated on a table of radius spellings: the same length whatever the unit it is written in"""
+    ctx.rule("C06.convert", "T4 (finite table)", "to_kilometers(s) = number x kilometres per unit for every listed spelling of every unit, a bare number in kilometres, a number "
+             "passed through; unknown units and a missing length raise ValueError - evaluated with the evaluator for string helpers (with split_units as the source defines it)")
+    from ..strmachine import call, Machine
+    f = ctx.func(GEO, "to_kilometers")
+    sp = ctx.func("typhon/utils/common.py", "split_units")
+    mod = ctx.mod(GEO)
+    table = None
+    for st in mod.tree.body:
+        if isinstance(st, ast.Assign) and len(st.targets) == 1 and norm(st.targets[0]) == "UNITS_CONVERSION_FACTORS":
+            table = Machine().ev(st.value, {})
+    globs = {"UNITS_CONVERSION_FACTORS": table} if table is not None else {}
+    for st in mod.tree.body:
+        # other module-level constants a restructured version may introduce (spelling -> factor dictionaries ...)
+        if isinstance(st, ast.Assign) and len(st.targets) == 1 and isinstance(st.targets[0], ast.Name) and st.targets[0].id not in globs:
+            try:
+                globs[st.targets[0].id] = Machine(globs=globs).ev(st.value, dict(globs))
+            except AnalysisError:
+                pass
+    funcs = {"split_units": sp}
+    for q, fn in mod.funcs.items():
+        if fn.cls is None and q not in ("to_kilometers",):
+            funcs.setdefault(q, fn)             # private helpers of the module
+    wrong = None
+    ncases = 0
+    rel = lambda a, b: a == b or (isinstance(a, (int, float)) and isinstance(b, (int, float)) and abs(a - b) <= 1e-12 * max(abs(a), abs(b)))
+    for unit, (km, spellings) in SI_KM.items():
+        for spelling in sorted(spellings):
+            for num, txt in ((5.0, "5"), (0.75, "0.75"), (1234.5, "1234.5"), (1500.0, "1500"), (3.1, "3.1"), (2500.0, "2.5e3")):
+                for sep in (" ", ""):
+                    sv = txt + sep + spelling
+                    got = call(f, sv, funcs=funcs, _globals=globs)
+                    accepted = any(spelling in row[0] for row in (table or []) if isinstance(row, (list, tuple)) and row) if table else None
+                    ncases += 1
+                    if accepted is False:
+                        continue        # a spelling the source does not list (British forms): which spellings are supported is C06.units' matter
+                    want = num * km
+                    if not rel(got, want) and wrong is None:
+                        wrong = {"to_kilometers(%r)" % sv: repr(got), "expected": want}
+    for v, want in ((7, 7), (2.5, 2.5), ("12", 12.0), ("0.5", 0.5)):
+        got = call(f, v, funcs=funcs, _globals=globs)
+        ncases += 1
+        if not rel(got, want) and wrong is None:
+            wrong = {"to_kilometers(%r)" % (v,): repr(got), "expected": want}
+    for v in ("5 parsecs", "km", "", "0 km", None, [5]):
+        got = call(f, v, funcs=funcs, _globals=globs)
+        ncases += 1
+        if got != ("raises", "ValueError") and wrong is None:
+            wrong = {"to_kilometers(%r)" % (v,): repr(got), "expected": "ValueError"}
+    ctx.ob("to_kilometers.table", wrong is None, "%d radius spellings evaluated%s" % (ncases, "" if wrong is None else "; first difference: %s" % wrong),
+           "the length in kilometres does not depend on the unit it is written in (exact product number x factor, no rounding)", node=f.node, func=f, witness=wrong, complete=True)
+    ctx.models.append({"rule": "C06.convert", "cases": ncases, "domain": "6 numbers x every listed spelling of 6 units x with / without blank; bare numbers; invalid radii", "exhaustive": False})
+
+
 def run(ctx):
+    from .C02 import _attempt_table, _decided, apply_decided
+    if _attempt_table(ctx, lambda c_, rid_: (rule_convert_table(c_), True)[1], "C06.convert", [(GEO, "to_kilometers"), ("typhon/utils/common.py", "split_units")]):
+        _decided(ctx, "C06.convert", ("to_kilometers",), ("to_kilometers.convert", "to_kilometers.number", "to_kilometers.passthrough"))
     for r in (rule_units, rule_split, rule_scale, rule_deshuffle, rule_pairing, rule_pairs, rule_empty, rule_metric, rule_complete, rule_support):
         ctx.attempt(r, ctx)
+    apply_decided(ctx)
     from .C07 import rule_forward_sphere
     ctx.attempt(rule_forward_sphere, ctx, "C06.cartesian")
     from ..early import rule_early_table
